@@ -27,7 +27,7 @@ ASSUMPTIONS = [
 ]
 TIMEOUT = {"quick": 400, "thorough": 2400}
 REQUIRED = {"stat_tests": 100, "tables:nonuniform": 40, "tables:descending_cells": 40, "post:get_conditionals": 30,
-            "conditionals_checked": 80, "cases:correlated": 8, "conditional_sample_calls": 10}
+            "conditionals_checked": 80, "cases:correlated": 8, "conditional_sample_calls": 10, "cases:bounds_thousands_of_widths": 3, "cases:conditioning_point_far_off_in_one_coordinate": 3}
 
 
 def jobs(tier, seed):
@@ -266,12 +266,25 @@ def run_job(job, rec):
         point = base + (rng.uniform(-1.2, 1.2, size=d) * widths0 if off else 0.0)
         bounds = []
         narrow = bool(rng.random() < 0.5)
+        # sometimes one coordinate of the conditioning point is tens of conditional widths from its own conditional mode (the other conditionals pass
+        # through a point of very low joint density), and sometimes the bounds are hundreds to thousands of widths wide
+        far_i = int(rng.integers(d)) if (d >= 2 and which != "skew" and not narrow and rng.random() < 0.45) else None
+        if far_i is not None:
+            point[far_i] += rng.choice([-1.0, 1.0]) * rng.uniform(30, 60) * post.cond(far_i, point)[1]
+            rec.count("cases:conditioning_point_far_off_in_one_coordinate")
+        very_wide = bool(not narrow and far_i is None and rng.random() < 0.3)
+        if very_wide:
+            rec.count("cases:bounds_thousands_of_widths")
         for i in range(d):
             m, w = post.cond(i, point)
             span = rng.uniform(3, 14) if narrow else rng.uniform(14, 100)
+            if very_wide:
+                span = 10.0 ** rng.uniform(2.3, 3.7)
+            if i == far_i:
+                span = rng.uniform(80, 140)      # its own conditional is found by the 16-point search of wide bounds
             lo, hi = m - w * span * rng.uniform(0.3, 1.0), m + w * span * rng.uniform(0.3, 1.0)
             # wide bounds are only searched on 16 points: keep the conditioning coordinate in the high-density region
-            if not narrow and abs(point[i] - m) > 1.5 * w:
+            if not narrow and abs(point[i] - m) > 1.5 * w and i != far_i:
                 point[i] = m + np.sign(point[i] - m) * 1.2 * w
             if which == "skew" and post.kinds[i] == "gamma":
                 lo = max(lo, post.loc[i] + 1e-3 * post.s[i])
@@ -304,6 +317,8 @@ def run_job(job, rec):
         if not rec.check(axes.shape == (gsz, d) and probs.shape == (gsz, d), "conditional-shape", f"shapes {axes.shape}, {probs.shape}", ctx):
             continue
         for i in range(d):
+            if i == far_i:
+                continue     # (its own conditional is only met by luck of the 16-point search: outside what the property promises)
             xg, pg = axes[:, i], probs[:, i]
             lo, hi = bounds[i]
             m, w = post.cond(i, point)
